@@ -127,6 +127,15 @@ func prop(c Case) error {
 		if r.WideAtCornerOnTrickTerminal() {
 			tainted = true // the known defect scrolls / damages the display from here on
 		}
+		if r.Corrupted {
+			// the terminal's contents were changed behind the library's back (a
+			// scramble, or the window went to another size and back unreported):
+			// until the next full redraw only well-formedness can be asked for
+			if err := r.CheckStrict(); err != nil {
+				return fmt.Errorf("step %d (%s) on %s/%s/%s: %v", i, op.Kind, c.Cfg.Entry, c.Cfg.Color, c.Cfg.Charset, err)
+			}
+			continue
+		}
 		if err := checkCells(r); err != nil {
 			tag := ""
 			if tainted && !strings.HasPrefix(err.Error(), "[") {
